@@ -121,7 +121,7 @@ def call_json(call):
 
 def run(ctx):
     thorough = ctx["tier"] == "thorough"
-    n = 12000 if thorough else 700
+    n = 12000 if thorough else 700 * ctx.get('scale', 1)
     g = Gen(ctx["seed"] + 77, normalization=True)
     violations, samples = [], []
     dist = collections.Counter()
@@ -182,7 +182,7 @@ def run(ctx):
              ("validate", {'b': 2, 'c': {'x': 1}}, {"normalize": False}, None), ("validated", {'a': 1, 'd': 2}, {}, None),
              ("normalized", {'a': '2'}, {}, None), ("validate", None, {}, None), ("validate", {'a': 1}, {}, {"bad": {"type": "nosuchtype"}}),
              ("validate", {'q': 1}, {"update": True}, {'q': {'type': 'string'}})]
-    maxlen = 3 if thorough else 2
+    maxlen = 3 if (thorough or ctx.get('searching')) else 2
     for L in range(1, maxlen + 1):
         for hist in itertools.product(range(len(calls)), repeat=L):
             for p in range(5):
